@@ -53,6 +53,18 @@ CHECKS = {
                 technique='deterministic simulation: real AE/AssociationAcceptor/provider threads against a scripted requestor; small universe of requests x configurations enumerated, each answered A-ASSOCIATE-AC parsed by the reference codec and every context probed with a message',
                 text='Every subset of served SOP classes x every subset of 4 transfer syntaxes x requests with 0..3 contexts and every ordered list of 1..3 proposed transfer syntaxes (0 and 1 contexts exhaustively, 2 over a reduced set in thorough; seeded requests up to 128 contexts): one result item per proposed context, same ids and order; accepted iff served and some proposed syntax supported; returned syntax proposed and supported; AE titles and application context repeated; a probe on each accepted context reaches the service with exactly that (id, SOP class, syntax) and is answered on it; a probe on a refused or unproposed id reaches no service.',
                 note='result code of refused contexts only required non-zero; how the association ends after a message on a refused id is not judged'),
+    'C11': dict(cat='exploration', ref='6/C11',
+                technique='deterministic simulation: real ClientAE/AE + AssociationRequester + provider thread against a scripted acceptor; configurations and reply patterns enumerated (small) and seeded (large); A-ASSOCIATE-RQ parsed by the reference codec, get_scu probed for every class',
+                text='Sequences of 1..4 add_scu/add_scp calls with 0..140 SOP classes (overlapping, totals around and beyond 128), 1..3 transfer syntaxes, maxima incl. 0: the request on the wire names remote/local AE titles, the DICOM application context, the configured maximum length, each configured class exactly once under distinct odd ids 1..255 with exactly the configured syntaxes; after a reply with any mix of results 0..4 and syntax choices, get_scu succeeds exactly for classes with an accepted context (bound to that id and the syntax the peer chose) and raises ClassNotSupportedError otherwise; a configuration that does not fit 128 contexts fails with a library error before a connection is opened.',
+                note='a service is expected only for classes configured with add_scu; replies that accept ids never proposed are out of scope'),
+    'C14': dict(cat='exploration', ref='6/C14',
+                technique='deterministic simulation with fault injection: real AE server and real ClientAE (all their threads) on the simulated transport with a wire tap; scenarios x values x conversation points under seeded schedules; RST and stall faults in a separate relaxed configuration',
+                text='Reject with all 60 standard (result, source, reason) triples and seeded others: the RJ on the wire and the AssociationRejectedError at the requestor carry exactly the application\'s values and no service runs, even when a scripted requestor keeps sending after the refusal; abort by requestor or acceptor with reasons 0..255 before, between and during a multi-fragment transfer (up to 60 fragments still queued) reaches the wire with the right source/reason and surfaces as AssociationAbortedError with the same fields; release surfaces as AssociationReleasedError and is answered; leaving request_association normally releases (no A-ABORT), leaving it by an exception aborts (no A-RELEASE-RQ) and re-raises the user\'s exception.',
+                note='receiving-side exceptions observed by wrapping Association._get_dul_message; under RST only absence of wrong values is required; stalls below kill()\'s grace period'),
+    'C17': dict(cat='exploration', ref='6/C17',
+                technique='deterministic simulation: the real service providers on a real AE (plus their sub-associations on the simulated listener table) against scripted users; reference command reader on every response',
+                text='verification_scp, storage_scp (file-backed), qr_find_scp, qr_move_scp (with a real sub-association to a scripted destination), StorageCommitment.n_action (+ the N-EVENT-REPORT it sends on a second association, success-only/failure-only/mixed), StorageCommitment.n_event_report and the C-STORE responses of qr_get_scu: for message ids {0,1,255,256,32767,32768,65535,+seeded}, several context ids, seeded UIDs and handler outcomes (success, warning, failure, EventHandlingError where documented) every response is on the request\'s context, of type request|0x8000, repeats message id, SOP class and instance, carries the handler\'s (or the documented failure) status, and every request is answered within bounded virtual time.',
+                note='data sets built with pydicom; EventHandlingError injected only where a failure status is documented'),
 }
 
 
